@@ -16,6 +16,19 @@ Definition pm1 (e : event) (o : list obs) (m : mon) : mon :=
 Definition pm2 (e : event) (o : list obs) (m : mon) : mon :=
   (pm1 e o m) <| m_learners := fst (fold_left c07_ghost o (m_learners (pm1 e o m), ""%string)) |>.
 Definition pc_learn (e : event) (o : list obs) (m : mon) : string := snd (fold_left c07_ghost o (m_learners (pm1 e o m), ""%string)).
+(* a done message for an operation that is gone cannot state "cancelled for lack of waiting clients" to a stream that was not cancelled *)
+Definition pc_gone (post : dump) (e : event) (o : list obs) (m : mon) : string :=
+  let m2 := pm2 e o m in
+  first_nonempty (map (fun x =>
+                  match x with
+                  | OMsg c name _ (Some r) =>
+                    match get_stream m2 c, find_dop post name with
+                    | Some s, None => if scheduler_made r && (r_code r =? cCANCELLED)%N && negb (sm_cancelled s) && negb (sm_done s)
+                                      then "C02:cancelled-for-lack-of-waiters-while-a-client-waited"%string else ""%string
+                    | _, _ => ""%string
+                    end
+                  | _ => ""%string
+                  end) o).
 Definition pm3 (post : dump) (e : event) (o : list obs) (m : mon) : mon := fst (fold_left (c02_obs post) o (pm2 e o m, ""%string)).
 Definition pc_stream (post : dump) (e : event) (o : list obs) (m : mon) : string := snd (fold_left (c02_obs post) o (pm2 e o m, ""%string)).
 
@@ -191,12 +204,12 @@ Definition p_components (cfg : config) (t0 : Z) (m : mon) (pre : dump) (e : even
   [pc_panic o; c01_dump post; pc_sync post e o m3; pc_stream post e o m; pc_lost cfg pre post m; pc_cancel pre post e m;
    c03_dump post; c03_waited post; c04_dump post; pc_exec cfg t0 pre post e o; c05_assign pre post;
    c06_dump mf post; c06_final mf post; pc_arm cfg pre post e o m m3; snd (retry_fold cfg post e o m (pm_clear pre e m3)); pc_early cfg pre post m;
-   pc_learn e o m; c07_background post; c07_learners_match mf post].
+   pc_learn e o m; c07_background post; c07_learners_match mf post; pc_gone post e o m].
 
 Lemma p_step_components : forall cfg t0 m pre e o post,
   p_step cfg t0 m pre e o post = (pm_final cfg pre post e o m, first_nonempty (p_components cfg t0 m pre e o post)).
 Proof.
-  intros cfg t0 m pre e o post. unfold p_step, p_components, pm_final, pc_learn, pc_stream, pm3, pm2, retry_fold. cbv zeta.
+  intros cfg t0 m pre e o post. unfold p_step, p_components, pm_final, pc_learn, pc_stream, pc_gone, pm3, pm2, retry_fold. cbv zeta.
   fold (pm1 e o m).
   destruct (fold_left c07_ghost o (m_learners (pm1 e o m), ""%string)) as [ls el] eqn:E1. cbn [fst snd].
   destruct (fold_left (c02_obs post) o (pm1 e o m <| m_learners := ls |>, ""%string)) as [m3 es] eqn:E2. cbn [fst snd].
